@@ -483,9 +483,11 @@ func (fc *FontConfigurationGotext) wrapWordBreak(text []rune, style *TextStyle, 
 	// sort the line by visual order
 	sort.Slice(line, func(i, j int) bool { return line[i].VisualIndex < line[j].VisualIndex })
 
+	// the layout only holds the text of its line
+	text = text[:firstLineLength]
 	if !fitsOnFirstLine && spaceCollapse {
 		// remove the space runes...
-		text = trimTrailingSpaces(text[:firstLineLength])
+		text = trimTrailingSpaces(text)
 		firstLineLength = len(text)
 		// and the matching glyphs
 		lastRun := &line[len(line)-1]
